@@ -34,7 +34,7 @@ from core.types import NONE, members
 from . import search as S
 from .searchrules import start_filters, unresolved_subtree_sets
 from .c03_absint import Const, E, Interp, Opaque, Ref, Sc, Top, Tup, V
-from .common import guard_formula, stmt_of, types_of, where
+from .common import guard_formula, helper_object_sources, stmt_of, types_of, where
 # anchors: modules and classes that other modules of pytestarch import by these names (nothing private)
 DETECTOR = "pytestarch.rule_assessment.rule_check.rule_violation_detector"  # RuleViolationBaseDetector
 MATCHER = "pytestarch.rule_assessment.rule_check.rule_matcher"  # RuleMatcher
@@ -99,6 +99,8 @@ def run_r1(repo: Repo, res: Result, rule_id: str = "C03.R1") -> None:
                 res.undecide(rule_id, f"{fi.relpath}::{getattr(fi, 'shown', fi.qualname)}::worklist start", bad_filter[2], where(fi, m.loop))
             elif bad_filter is not None:
                 res.add(rule_id, f"{fi.relpath}::{getattr(fi, 'shown', fi.qualname)}::worklist start", False, bad_filter[2], where(fi, m.loop), kind="structural")
+            elif not ok and helper_object_sources(fi, sources):
+                res.undecide(rule_id, f"{fi.relpath}::{getattr(fi, 'shown', fi.qualname)}::worklist start", f"the worklist is owned by a helper object `{helper_object_sources(fi, sources)[0]}` of a class defined in this module; the search model does not read that class, so where the traversal starts is not decided", where(fi, m.loop))
             else:
                 res.add(rule_id, f"{fi.relpath}::{getattr(fi, 'shown', fi.qualname)}::worklist start", ok, f"worklist starts from {S.SUBMODULES}(graph, {subj})" if ok else f"worklist starts from `{', '.join(sources) or '?'}`, not only from the subject's subtree", where(fi, m.loop), kind="structural")
         else:
